@@ -236,8 +236,11 @@ def window_clamp(rep, prog, rule):
         e = sym.local(ls[0])
         s = fmt(e)
         has = ("%s(" % fn_) in s and (bound == "0" and ", 0.0)" in s or bound in s)
+        alt = "clamp(" in s or "saturating" in s or ("max(" in s and "min(" in s)
         if has:
             rep.ok(rule, name, f.loc, s[:120])
+        elif alt:
+            rep.unk(rule, name, f.loc, "%s is bounded in an unrecognised form: %s" % (name, s[:120]))
         else:
             rep.bad(rule, name, f.loc, "%s = %s is not clamped with %s(.., %s): the window can "
                     "start before / end after the source row" % (name, s[:160], fn_, bound))
@@ -259,7 +262,7 @@ def run(rep, tier):
     cfgs = ["x86"] if tier == "quick" else ["x86", "x86-rayon", "arm", "wasm"]
     for cfg, prog in programs(cfgs):
         rep.set_cfg(cfg)
-        axis_rule(rep, prog, "C01.axis")
-        alg_table(rep, prog, "C01.alg-table")
-        support(rep, prog, "C01.support")
-        window_clamp(rep, prog, "C01.window-clamp")
+        rep.call(axis_rule, rep, prog, "C01.axis")
+        rep.call(alg_table, rep, prog, "C01.alg-table")
+        rep.call(support, rep, prog, "C01.support")
+        rep.call(window_clamp, rep, prog, "C01.window-clamp")
